@@ -45,7 +45,7 @@ CHECKS = {
     text="Explicit-state BFS (depth 9 quick / 13 thorough) over the real epoch-manager with 0-3 hook receiver contracts and over fee_distributor::NewEpoch in a full fee hub: clocks on whole seconds, with genesis at +0.75 s, a duration of 1 day + 1 ns, and genesis at time 0 (distributor); block time set to {genesis-duration-1ns, genesis-duration, genesis-1ns, genesis, boundary-1ns, boundary, boundary+1ns, boundary+2.5 durations}, creation attempts (also repeated in one block), hook add/remove by owner and stranger, duration changes: creation accepted iff the full duration elapsed (and not before genesis), id+1 and start+duration exactly, rejected attempts (errors and caught panics) change nothing, every registered receiver logs exactly one notification carrying the new epoch, stored epochs gap-free.",
     note="Durations 1 and 3 days; bounded depth.", tech="explicit-state model checking of the implementation (BFS) over time schedules", ref="DESIGN.md §4 C20"),
  "C10": dict(
-    text="Exhaustive enumeration of the full configuration product (13824 configurations: fee state {0,<1000,>1000 on both sides, one side above and one below the threshold} of 2 real pairs x {0,500,5000} of 2 real vaults x take rate {inactive,0,1e-18,1%,50%,1-1e-18} x routes {both,none,A only,B only} x fault {none, routed pair paused, routed hop exceeds max spread (vault-held asset), same for the pool-only cw20 asset}); each configuration is produced by real swaps/loans on a fully deployed hub (factories, router, collector, lair, distributor) and followed by one real NewEpoch: ledgers cleared, collector assets swapped-through-route-or-untouched, DAO == floor(rate*balance) and recorded per epoch, distributor delta == new epoch total - rollover, conservation of the distribution asset, ForwardFees only by the distributor, failing hop reverts everything.",
+    text="Exhaustive enumeration of the full configuration product (17280 configurations: fee state {0,<1000,>1000 on both sides, one side above and one below the threshold} of 2 real pairs x {0,500,5000} of 2 real vaults x take rate {inactive,0,1e-18,1%,50%,1-1e-18} x routes {both,none,A only,B only} x fault {none, routed pair paused, routed hop exceeds max spread (vault-held asset), same for the pool-only cw20 asset, none with a 1e21 collector balance}); every configuration also creates a third epoch after raising the grace period; each configuration is produced by real swaps/loans on a fully deployed hub (factories, router, collector, lair, distributor) and followed by one real NewEpoch: ledgers cleared, collector assets swapped-through-route-or-untouched, DAO == floor(rate*balance) and recorded per epoch, distributor delta == new epoch total - rollover, conservation of the distribution asset, ForwardFees only by the distributor, failing hop reverts everything.",
     note="One NewEpoch per configuration; protocol fee 1%, no burn; the collector does not enumerate three-asset pools (stated scope).", tech="exhaustive configuration/fault enumeration on the implementation (explicit-state, one transaction deep)", ref="DESIGN.md §4 C10"),
  "C03": dict(
     text="(a) exhaustive grid on the real stableswap compute_swap and LP-mint formula (hook): whole-token reserve magnitudes incl. 1:1..1:1e9 imbalances x offers {1 unit,1e-3,1,10%,100%,10x} x amp {1..1e6} x decimals {(6,6),(6,8),(8,6),(6,18),(18,6),(4,5)} x fee triples, compared with D and y solved independently (exact sign predicate of the polynomial) on decimal-normalised reserves: pool keeps the curve reserve up to 2+2*slope base units, proceeds <= ask reserve, proceeds monotone in the offer, fees floor(share*gross), mint <= invariant growth. (b) BFS histories (depth 3/4) of swap/provide/withdraw/collect/fee changes on the real deployed stableswap pair with decimals (6,6), (6,18), (6,8) [and (8,6) thorough], deposits also with the assets listed in reverse order: normalised D per LP never falls, mint bound, deposit->withdraw probe.",
